@@ -12,7 +12,6 @@ import itertools
 import os
 import shutil
 import tempfile
-import typing as ty
 from pathlib import Path
 
 from fileformats.generic import File, Directory
